@@ -17,6 +17,10 @@ pub struct Oracle {
     pub zero_hashed: bool,
     /// evaluate abs as the gradient / interval evaluators do: `if v < 0 { -v } else { v }` (keeps -0.0)
     pub abs_keeps_neg_zero: bool,
+    /// atan2 met with both arguments zero (the case C03 / C14 leave out)
+    pub atan00: bool,
+    /// a min / max / and / or picked between two zeros, or passed a zero on: the sign of the zero it returns is not fixed
+    pub zero_tie: bool,
 }
 impl Oracle {
     pub fn fmt(&self) -> String {
@@ -46,7 +50,8 @@ impl Oracle {
         use BinaryOpcode::*;
         match b {
             Add => x + y, Sub => x - y, Mul => x * y, Div => x / y,
-            Atan => self.log2(8, x, y, x.atan2(y)),
+            Atan => { if x == 0.0 && y == 0.0 { self.atan00 = true; } self.log2(8, x, y, x.atan2(y)) }
+            Min | Max if x == 0.0 && y == 0.0 => { if x.is_sign_negative() != y.is_sign_negative() { self.zero_tie = true; } if (b == Min) == x.is_sign_negative() { x } else { y } }
             Min => if x < y { x } else if y < x { y } else if x.is_nan() || y.is_nan() { f32::NAN } else if x.is_sign_negative() { x } else { y },
             Max => if x > y { x } else if y > x { y } else if x.is_nan() || y.is_nan() { f32::NAN } else if x.is_sign_positive() { x } else { y },
             Compare => match x.partial_cmp(&y) { Some(c) => c as i8 as f32, None => f32::NAN },
@@ -73,4 +78,20 @@ pub fn eval_arena(ctx: &Context, env: &dyn Fn(Var) -> f32, orc: &mut Oracle) -> 
         vals.push(v);
     }
     vals
+}
+
+/// Nodes whose value may legitimately differ between evaluators: a min / max of two zeros of opposite sign, and
+/// everything computed from one.
+pub fn zero_tie_taint(ctx: &Context, vals: &[f32]) -> Vec<bool> {
+    let n = ctx.len();
+    let mut t = vec![false; n];
+    for i in 0..n {
+        t[i] = match *ctx.get_op(Node::verif_new(i)).unwrap() {
+            Op::Unary(_, a) => t[a.verif_index()],
+            Op::Binary(b, l, r) => { let (li, ri) = (l.verif_index(), r.verif_index());
+                t[li] || t[ri] || (matches!(b, BinaryOpcode::Min | BinaryOpcode::Max) && vals[li] == 0.0 && vals[ri] == 0.0 && vals[li].is_sign_negative() != vals[ri].is_sign_negative()) }
+            _ => false,
+        };
+    }
+    t
 }
